@@ -61,6 +61,7 @@ static void signal_cb(uv_signal_t* h, int signum) {
   int i = (int) (h - hs);
   int k = cb_cnt++;
   printf("c%d,%d ", i, signum);
+  snap();
   in_cb++;
   if (k < nbeh) { char* copy = strdup(beh[k]); do_ops(copy); free(copy); }
   in_cb--;
